@@ -1373,11 +1373,13 @@ func (e *Engine) switchTo(idx int, keepCurrent bool) {
 		cur := st.curGor
 		cur.frames = st.frames
 		cur.thread = st.thread
+		cur.locks = st.heldLocks // the lock set belongs to the goroutine, not to the processor
 		c := cur
 		rest = append(rest, &c)
 	}
 	st.others = rest
 	st.curGor = *g
+	st.heldLocks = append([]int(nil), g.locks...)
 	st.curGor.blocked, st.curGor.yielding = false, false
 	st.thread = g.thread
 	st.frames = g.frames
